@@ -582,6 +582,32 @@ def _exec_payload_one(ctx, h, scratch):
         _match_known(h, res)
         return res
     probes["b.resaved_unchanged"] = 1
+    if h["fk"] % 3 == 1 and tag not in ("hmtx", "vmtx", "glyf", "loca", "post", "head", "maxp", "hhea", "vhea"):
+        # the same through the text form (what the ttx command does, which ignores decompile errors by
+        # default): the table is dumped as hex data marked as undecodable, and importing that dump gives
+        # the damaged bytes back, not a table of the tag's own class built from nothing
+        try:
+            f2 = TTFont(io.BytesIO(img), lazy=h["lazy"], ignoreDecompileErrors=True, recalcTimestamp=False)
+            sx = io.StringIO()
+            f2.saveXML(sx, tables=[tag])
+            f3 = TTFont()
+            f3.importXML(io.StringIO(sx.getvalue()))
+            back = f3.getTableData(tag)
+        except MemoryError:
+            probes["b.memory_limit_in_decode"] = 1
+            return res
+        except Exception as e:
+            back = None
+            err = "%s: %s" % (type(e).__name__, str(e)[:120])
+        if back != bad:
+            res["violation"] = {
+                "class": "undecodable-not-resaved:%s:through-ttx" % tag.strip(),
+                "detail": "damaged %r (%d bytes) dumped to TTX with decompile errors ignored and imported again %s (%s, fault=%s)" % (tag, len(bad), ("raised " + err) if back is None else "came back as %d different bytes" % len(back), h["font"], h["fault"]),
+                "sig": {"tag": tag, "clause": "b3", "exc": "differ" if back is not None else err.split(":")[0]},
+            }
+            _match_known(h, res)
+            return res
+        probes["b.through_ttx_unchanged"] = 1
     if h["flavor"] is None and h["fk"] % 2 == 0 and tag not in ("hmtx", "vmtx", "glyf", "loca", "post", "head", "maxp", "hhea", "vhea"):
         # (the tables of findings K3-K7 and the ones a save has to interpret are left to the single-font clause)
         _payload_in_collection(h, img, tag, bad, res)
